@@ -286,6 +286,13 @@ pub fn versioned_api() -> ApiDescription<ZooCtx> {
     api.register(ApiEndpoint::new("widget_json".into(), body_echo::<Two>, http::Method::POST, JSON, "/widget", ApiEndpointVersions::from(v("2.0.0")))).unwrap();
     api.register(ApiEndpoint::new("gadget_json".into(), body_echo::<Two>, http::Method::POST, JSON, "/gadget", ApiEndpointVersions::until(v("2.0.0")))).unwrap();
     api.register(ApiEndpoint::new("gadget_form".into(), body_echo::<Two>, http::Method::POST, URLENC, "/gadget", ApiEndpointVersions::from(v("2.0.0")))).unwrap();
+    // the same operation with a body-limit override in only one of its versions
+    api.register(ApiEndpoint::new("vlim_a_old".into(), untyped_echo, http::Method::PUT, "application/octet-stream", "/vlim_a", ApiEndpointVersions::until(v("2.0.0"))).request_body_max_bytes(40)).unwrap();
+    api.register(ApiEndpoint::new("vlim_a_new".into(), untyped_echo, http::Method::PUT, "application/octet-stream", "/vlim_a", ApiEndpointVersions::from(v("2.0.0")))).unwrap();
+    api.register(ApiEndpoint::new("vlim_b_old".into(), untyped_echo, http::Method::PUT, "application/octet-stream", "/vlim_b", ApiEndpointVersions::until(v("2.0.0")))).unwrap();
+    api.register(ApiEndpoint::new("vlim_b_new".into(), untyped_echo, http::Method::PUT, "application/octet-stream", "/vlim_b", ApiEndpointVersions::from(v("2.0.0"))).request_body_max_bytes(3)).unwrap();
+    api.register(ApiEndpoint::new("vlim_c_old".into(), streaming_echo, http::Method::PUT, "application/octet-stream", "/vlim_c", ApiEndpointVersions::until(v("2.0.0"))).request_body_max_bytes(3)).unwrap();
+    api.register(ApiEndpoint::new("vlim_c_new".into(), streaming_echo, http::Method::PUT, "application/octet-stream", "/vlim_c", ApiEndpointVersions::from(v("2.0.0"))).request_body_max_bytes(40)).unwrap();
     api.register(ApiEndpoint::new("num_u8".into(), path_echo::<u8>, http::Method::GET, JSON, "/n/{v}", ApiEndpointVersions::until(v("2.0.0")))).unwrap();
     api.register(ApiEndpoint::new("num_i64".into(), path_echo::<i64>, http::Method::GET, JSON, "/n/{v}", ApiEndpointVersions::from(v("2.0.0")))).unwrap();
     api
